@@ -144,6 +144,7 @@ typedef struct {
     unsigned long long spec_misses; /* jump word differed from its previous execution */
 
     unsigned long long last_run_op_count; /* op count of the last run (also on exceptions) */
+    PyObject* last_run_last_ops;          /* last-ops list of a run that ended by an exception; else NULL */
     double last_run_paused_seconds;       /* IO-paused seconds of the last run (also on exceptions) */
 } MemoryObject;
 
@@ -660,6 +661,7 @@ static int Memory_init(PyObject* op, PyObject* args, PyObject* kwds)
     self->spec_misses = 0;
     self->last_run_op_count = 0;
     self->last_run_paused_seconds = 0.0;
+    Py_CLEAR(self->last_run_last_ops);
     return 0;
 }
 
@@ -668,6 +670,7 @@ static void Memory_dealloc(PyObject* op)
     MemoryObject* self = (MemoryObject*)op;
     PyTypeObject* type = Py_TYPE(op);
     freefunc tp_free;
+    Py_CLEAR(self->last_run_last_ops);
     mem_free_allocations(self);
     tp_free = (freefunc)PyType_GetSlot(type, Py_tp_free);
     tp_free(op);
@@ -1580,6 +1583,31 @@ static PyObject* build_run_result(MemoryObject* self, int cause, uint64_t ops, u
     return Py_BuildValue("iKNNd", cause, (unsigned long long)ops, error_address, last_ops_list, paused_seconds);
 }
 
+/* a run that ends with a python exception (Ctrl+C, IO-device errors) returns no result tuple: keep its
+   last-ops (oldest first) readable through Memory.last_run_last_ops, like last_run_op_count.
+   keeps the pending exception. */
+static void store_last_ops_on_error(MemoryObject* self, const uint64_t* last_ops_ring, Py_ssize_t last_ops_length,
+                                    uint64_t ring_writes)
+{
+    PyObject *error_type, *error_value, *error_traceback;
+    PyObject* last_ops_list;
+    uint64_t total = (ring_writes < (uint64_t)last_ops_length) ? ring_writes : (uint64_t)last_ops_length;
+    uint64_t start = (ring_writes - total) % (uint64_t)last_ops_length;
+    PyErr_Fetch(&error_type, &error_value, &error_traceback);
+    last_ops_list = PyList_New(0);
+    for (uint64_t i = 0; last_ops_list && i < total; i++) {
+        PyObject* address = PyLong_FromUnsignedLongLong(last_ops_ring[(start + i) % (uint64_t)last_ops_length]);
+        if (!address || PyList_Append(last_ops_list, address) < 0) {
+            Py_CLEAR(last_ops_list);
+        }
+        Py_XDECREF(address);
+    }
+    PyErr_Clear();
+    Py_XDECREF(self->last_run_last_ops);
+    self->last_run_last_ops = last_ops_list;
+    PyErr_Restore(error_type, error_value, error_traceback);
+}
+
 /* the run loop.
    run(read_bit, write_bit, eof_exception_type, last_ops_length=0, start_ip=0)
    -> (termination_cause, op_count, error_bit_address_or_None, last_ops_list, paused_seconds) */
@@ -1606,6 +1634,7 @@ static PyObject* Memory_run(MemoryObject* self, PyObject* args, PyObject* kwds)
         return NULL;
     }
 
+    Py_CLEAR(self->last_run_last_ops);
     self->spec_measured = 0;
     {
         const char* measure_speculation = getenv("FLIPJUMP_MEASURE_SPECULATION");
@@ -1647,6 +1676,9 @@ static PyObject* Memory_run(MemoryObject* self, PyObject* args, PyObject* kwds)
         int loop_cause = run_generic_loop(self, read_bit, write_bit, eof_exception_type, start_ip, &loop_ops,
                                           &loop_paused, last_ops_ring, last_ops_length, &loop_ring_writes);
         if (loop_cause == CAUSE_PYTHON_ERROR) {
+            if (last_ops_ring) {
+                store_last_ops_on_error(self, last_ops_ring, last_ops_length, loop_ring_writes);
+            }
             free(last_ops_ring);
             return NULL;
         }
@@ -1659,6 +1691,16 @@ static PyObject* Memory_get_op_count(MemoryObject* self, void* closure)
 {
     (void)closure;
     return PyLong_FromUnsignedLongLong(self->last_run_op_count);
+}
+
+static PyObject* Memory_get_last_ops(MemoryObject* self, void* closure)
+{
+    (void)closure;
+    if (!self->last_run_last_ops) {
+        return PyList_New(0);
+    }
+    Py_INCREF(self->last_run_last_ops);
+    return self->last_run_last_ops;
 }
 
 static PyObject* Memory_get_paused_seconds(MemoryObject* self, void* closure)
@@ -1709,6 +1751,8 @@ static PyMethodDef Memory_methods[] = {
 static PyGetSetDef Memory_getset[] = {
     {"last_run_op_count", (getter)Memory_get_op_count, NULL, "op count of the last run (valid on exceptions too)",
      NULL},
+    {"last_run_last_ops", (getter)Memory_get_last_ops, NULL,
+     "last-ops addresses (oldest first) of a last run that ended by an exception, else []", NULL},
     {"last_run_paused_seconds", (getter)Memory_get_paused_seconds, NULL,
      "IO-paused seconds of the last run (valid on exceptions too)", NULL},
     {"allocated_bytes", (getter)Memory_get_allocated_bytes, NULL,
